@@ -1,0 +1,15 @@
+//go:build verif
+
+package telemetry
+
+// Contracts checked by /verif/gvc. Comment-only file (build tag verif).
+
+// The flush hook is called for runtime-done records only (and once per such record: the loop body calls it at most
+// once per record, and for every record of that type).
+//@ functype RuntimeDoneHook()
+//@   modifies everything
+//@   preserves telemetry.Server
+//@ func (*Server).eventHandler
+//@   requires s != nil && s.f != nil && s.log != nil && r != nil
+//@   callsite f requires p.Type == RuntimeDone
+//@   modifies everything
